@@ -89,9 +89,15 @@ def gen_mesh(rng, tier, scale):
     except Exception:
         V = np.array([rng.vec() for _ in range(8)]) * scale
         keep, tris = _hull_triangles(V)
-    remap = {int(old): new for new, old in enumerate(keep)}
-    V2 = V[keep]
-    T2 = [[remap[int(i)] for i in t] for t in tris]
+    if len(keep) < len(V) and rng.chance(0.4):
+        # the documented route make_convex_mesh(point cloud): interior points stay in the vertex array, the triangles
+        # reference hull vertices only (vertex 0 may be interior)
+        V2 = V
+        T2 = [[int(i) for i in t] for t in tris]
+    else:
+        remap = {int(old): new for new, old in enumerate(keep)}
+        V2 = V[keep]
+        T2 = [[remap[int(i)] for i in t] for t in tris]
     if rng.chance(0.3):  # the constructor asks for index triples only: winding need not be consistent
         mode = rng.choice(["all", "some", "alternate"])
         for i in range(len(T2)):
@@ -103,7 +109,10 @@ def gen_mesh(rng, tier, scale):
         inv = {old: new for new, old in enumerate(perm)}
         V2 = V2[perm]
         T2 = [[inv[i] for i in t] for t in T2]
-    return {"kind": "mesh", "vertices": (V2 + 0.0).tolist(), "triangles": T2}
+    spec = {"kind": "mesh", "vertices": (V2 + 0.0).tolist(), "triangles": T2}
+    if rng.chance(0.3):
+        spec["tri32"] = True  # scipy's ConvexHull.simplices (what make_convex_mesh returns) are int32
+    return spec
 
 
 def gen_ring_mesh(rng, tier, scale):
